@@ -18,6 +18,7 @@ HAS_HEAD_FIELD = {'auto'}
 
 class C12(ParserSessionProp):
     id = 'C12'
+    stress_every = {'quick': 400, 'thorough': 150}
     families = FAMILIES_ALL
     max_len = 8
     fault_classes = ('none', 'inband')
